@@ -252,8 +252,10 @@ Fixpoint walk (cfg_features : N) (s : nstate) (msgs : list cmsg) (results : list
                   else if need_reply && reply_ack_on s' then
                     match sent with
                     | x :: xs =>
-                        and_then (is_response_to m x (Some 8) && Bool.eqb (ack_value x =? 0) (String.eqb r "ok")) 4
-                                 (walk cfg_features s' ms rs cs xs)
+                        (* the acknowledgement is zero exactly when the handler succeeded: C03 (the frontend's call succeeds
+                           only on a zero status) as much as C04 *)
+                        and_then (Bool.eqb (ack_value x =? 0) (String.eqb r "ok")) 34
+                          (and_then (is_response_to m x (Some 8)) 4 (walk cfg_features s' ms rs cs xs))
                     | [] => 4
                     end
                   else walk cfg_features s' ms rs cs sent)))
@@ -318,6 +320,7 @@ Definition be_spec (args : list val) : val :=
         end in
       if negb c05 then VS "false:C05"
       else if negb c09 then VS "false:C09"
+      else if c0407 =? 34 then VS "false:C03,C04"
       else if c0407 =? 1 then VS "false:C01"
       else if c0407 =? 4 then VS "false:C04"
       else if c0407 =? 7 then VS "false:C07"
